@@ -16,6 +16,7 @@ from .. import ashref as R
 from .. import ezspref as X
 from .. import vloop, wire, ncpsim
 from ..runner import Acc
+from .. import logmode
 from ..contracts import install_status_contract
 
 PROPERTY = "C09"
@@ -24,7 +25,7 @@ RULE = (
     "A run = (NCP protocol version in 4..14, 15, 16, 32) x (device path: serial, or socket:// with the "
     "NCP's spontaneous start-up RSTACK absent / at 0.5 s (seen) / at 1.5 s (late)) x (fault vector over "
     "the first 12 frames on the line: none, every single fault, every pair of faults, each from {drop, "
-    "detectable corruption, duplicate}).  Non-trivial = at least one fault, or a socket path; distinct = "
+    "detectable corruption, duplicate in a read of its own, duplicate within one read}).  Non-trivial = at least one fault, or a socket path; distinct = "
     "distinct (version, path mode, fault vector)."
 )
 ASSUMPTIONS = [
@@ -32,15 +33,18 @@ ASSUMPTIONS = [
     "else only in its own layout, and ignores frames not framed for its version (UG100)",
     "NCPs newer than the newest known tables use the v8+ header layout and the newest known command tables",
     "with a fault on an RST/RSTACK frame bring-up may fail, but cleanly, and a second connect must succeed; "
-    "with faults on DATA/ACK frames only it must complete (ASH recovers)",
+    "with faults on DATA/ACK frames only it must complete (ASH recovers); an RSTACK doubled within a single "
+    "read is not a reason to fail (the handshake is complete before the host has sent anything)",
+    "when protocol.data_received() raises, the fake transport does what asyncio transports do: it closes and "
+    "reports connection_lost(exc)",
     "rtmon.ashref.RefNcpAsh conforms to UG101",
 ]
 REACH = {t: ["versions_all", "socket_seen", "socket_late", "socket_absent", "serial", "second_reset_fallback",
              "recovered_data_fault", "clean_failure_on_rst_fault", "second_connect_ok", "newer_than_known",
-             "double_fault"] for t in ("quick", "thorough")}
+             "double_fault", "rstack_doubled_in_one_read"] for t in ("quick", "thorough")}
 SHARD_TIMEOUT = {"quick": 900, "thorough": 3600}
 VERSIONS = list(range(4, 15)) + [15, 16, 32]
-KINDS = ["drop", "corrupt", "dup"]
+KINDS = ["drop", "corrupt", "dup", "dup1"]  # dup: copy in a read of its own; dup1: both copies in one read
 NF = 12
 
 
@@ -154,7 +158,13 @@ def judge(V, mode, vector, trace, info):
         bad.append(("C09/hang", "the event loop ran dry during bring-up"))
         return bad, facts
     lines = [e for e in trace if e[0] == "line"]
-    fault_on_reset = any(e[4] != "ok" and e[3] and e[3][0] in ("RST", "RSTACK") for e in lines)
+    # A fault on a reset frame may legitimately fail the bring-up - except an RSTACK that is
+    # merely doubled *within one read*: both copies are in the host's hands before it has sent
+    # anything, the handshake is complete, and nothing about the second copy can undo it.
+    fault_on_reset = any(e[4] != "ok" and e[3] and e[3][0] in ("RST", "RSTACK")
+                         and not (e[4] == "dup1" and e[3][0] == "RSTACK") for e in lines)
+    if any(e[4] == "dup1" and e[3] and e[3][0] == "RSTACK" for e in lines):
+        facts.add("rstack_doubled_in_one_read")
     any_fault = any(e[4] != "ok" for e in lines)
     first_ok = all(s[2] == "ok" for s in info["steps"] if s[0] == "first") and \
         any(s[1] == "second_round" for s in info["steps"] if s[0] == "first")
@@ -229,8 +239,12 @@ def judge(V, mode, vector, trace, info):
                 key = "C09/bring-up/default-config-missing-for-newer-version"
             elif any_fault:
                 key = "C09/bring-up/failed-although-only-data-or-ack-frames-were-faulted"
+            raised = [e[2] for e in trace if e[0] == "protocol_raised"]
+            if raised and "rstack_doubled_in_one_read" in facts:
+                key = "C09/handshake/doubled-rstack-breaks-bring-up"
             bad.append((key, f"NCP v{V} ({mode}, faults {[(i, f) for i, f in enumerate(vector) if f != 'ok']}): "
-                        f"step {failed[1]} ended with {failed[2]}"))
+                        f"step {failed[1]} ended with {failed[2]}"
+                        + (f"; the serial receive callback raised {raised[0]}" if raised else "")))
         else:
             facts.add("clean_failure_on_rst_fault")
         if info["second"] is not None:
@@ -257,7 +271,7 @@ def pretty(trace):
 
 
 def run_shard(desc) -> Acc:
-    logging.disable(logging.CRITICAL)
+    logmode.apply(desc)
     acc = Acc()
     install_status_contract(acc)
     V, mode = desc["version"], desc["mode"]
